@@ -70,10 +70,8 @@ def keepsAllOnL (S : SK → Bool) (c : Ctx) : List Green → Bool
   | g :: gs => keepsAllOn S c g && keepsAllOnL S c gs
 end
 
-/-- the node kinds for which `C14_parsed_trees_keep_all_partial` is proved: all but these two -/
-def covered : SK → Bool
-  | .RecordExpr | .MacroExpansion => false
-  | _ => true
+/-- the node kinds for which the shape theorem (`C14_parsed_trees_keep_all`) is proved: all of them -/
+def covered : SK → Bool := fun _ => true
 
 mutual
 /-- every node of the tree has a kind in `S` -/
